@@ -66,6 +66,15 @@ CHECKS = {
              "logged and compared with the layout model; bytes on disk are decoded independently and compared sample by sample with a "
              "one-shot numpy reference pipeline for several (num_subblocks, blocks_per_file) per configuration.",
         design="3/C02", technique="Coq proof (Z layout arithmetic by nia, finite nibble table, chunking corollary) + write-log and byte-level correspondence"),
+    "C04": dict(
+        text="Theorems: every valid card renders to exactly 80 bytes; padding is (-80n) mod 512 under DIRECTIO (aligned, < 512, zero when "
+             "already aligned) and 0 otherwise; an independent reader recovers exactly the emitted blocks for every number of cards (all "
+             "header lengths mod 512) and any data; pipeline-owned keys always carry the configuration's values whatever the caller "
+             "supplied, every other caller card survives template and configuration; the library's block counters return the number of "
+             "blocks written file by file and in total; blocks-per-file distribution sums to the request. The model assembles the header "
+             "dictionary and lays out the first block's cards, which are compared byte for byte with the file; files are re-read with an "
+             "independent parser, the library readers under every listing permutation, and blimpy.",
+        design="3/C04", technique="Coq proof (parse-emit round trip by induction, dictionary lemmas, nat div/mod) + byte-level header correspondence"),
 }
 
 PENDING_REASON = "check not built yet in this session (planned in DESIGN.md section 3); no claim is made for it in this commit"
